@@ -202,25 +202,29 @@ theorem readAt_ofNat {α : Type} (a : Arr α) (i : Idx) (h : InShape i a.shape) 
     apply List.map_congr_left; intro x _; simp
   rw [hm, if_pos ⟨by intro x hx; simp only [List.mem_map] at hx; obtain ⟨y, _, rfl⟩ := hx; omega, h⟩]
 
-/-- `view::trace` on every accepted axis pair and every offset with a non-empty diagonal: NumPy's shape, and per result
-    index the diagonal elements folded in increasing order; every read inside the source shape -/
-theorem trace_spec {α : Type} (add : α → α → α) (a : Arr α) (off axis1 axis2 : Int) (n1 n2 : Nat)
+theorem foldNumpy_optOp_join {α β : Type} (f : α → α → α) (z : Option α) (g : β → α) (l : List β) :
+    (foldNumpy (z.map some) (optOp f) none (l.map (fun x => some (g x)))).join = foldNumpy z f none (l.map g) := by
+  cases l with
+  | nil => cases z <;> rfl
+  | cons b t => exact foldFirst_optOp_some f g (b :: t)
+
+/-- `view::trace` on every accepted axis pair and EVERY offset (an empty diagonal included): NumPy's shape, and per result
+    index the diagonal elements folded in increasing order (`zero` when there is none); every read inside the source shape -/
+theorem trace_spec_all {α : Type} (add : α → α → α) (zero : Option α) (a : Arr α) (off axis1 axis2 : Int) (n1 n2 : Nat)
     (h1 : ValidAxis a.shape.length axis1) (h2 : ValidAxis a.shape.length axis2)
     (h12 : normAxis a.shape.length axis1 ≠ normAxis a.shape.length axis2)
     (hn1 : a.shape[normAxis a.shape.length axis1]? = some n1)
-    (hn2 : a.shape[normAxis a.shape.length axis2]? = some n2)
-    (hlo : (-off).toNat < n1) (hhi : off.toNat < n2) :
-    ∃ v sp, trace add a off axis1 axis2 = some v ∧
+    (hn2 : a.shape[normAxis a.shape.length axis2]? = some n2) :
+    ∃ v sp, trace add zero a off axis1 axis2 = some v ∧
       specTrace a.shape off (normAxis a.shape.length axis1) (normAxis a.shape.length axis2) = some sp ∧
       v.shape = sp.shape ∧
       ∀ j, InShape j sp.shape →
-        v.get j = specTraceElem add a sp j ∧ sp.get j ≠ [] ∧ ∀ i ∈ sp.get j, InShape i a.shape := by
+        v.get j = specTraceElem add zero a sp j ∧ ∀ i ∈ sp.get j, InShape i a.shape := by
   generalize hs : a.shape = s at *
   generalize hax1 : normAxis s.length axis1 = ax1 at *
   generalize hax2 : normAxis s.length axis2 = ax2 at *
   let rest := ((List.range s.length).filter (fun i => decide (i ≠ ax1 ∧ i ≠ ax2))).filterMap (fun i => s[i]?)
   let len := min (n1 - (-off).toNat) (n2 - off.toNat)
-  have hlen : 0 < len := by simp only [len]; omega
   have hsd : shapeDiagonal s off ax1 ax2 = some (rest ++ [len]) := by
     unfold shapeDiagonal
     simp only [hn1, hn2]
@@ -242,14 +246,6 @@ theorem trace_spec {α : Type} (add : α → α → α) (a : Arr α) (off axis1 
     omega
   have hset : axisSet dg.shape.length (some [-1]) = [rest.length] := by
     simp only [dg, axisSet, List.length_append, List.length_singleton, List.map_cons, List.map_nil, normAxis_neg_one]
-  have hR : PosAxes dg.shape (axisSet dg.shape.length (some [-1])) := by
-    rw [hset]
-    intro k hk e he
-    simp only [List.mem_singleton] at hk
-    subst hk
-    simp only [dg, List.getElem?_append_right (Nat.le_refl _), Nat.sub_self, List.getElem?_cons_zero,
-      Option.some.injEq] at he
-    omega
   have hshape : specShape dg.shape (axisSet dg.shape.length (some [-1])) false = rest := by
     rw [hset]; exact specShape_last rest len
   have hsp : specTrace s off ax1 ax2 = some ⟨rest, fun d =>
@@ -257,9 +253,9 @@ theorem trace_spec {α : Type} (add : α → α → α) (a : Arr α) (off axis1 
     unfold specTrace
     simp only [hn1, hn2]
     rw [if_pos h12]
-  refine ⟨⟨rest, fun j => (reduceElem (optOp add) none dg (some [-1]) false j).join⟩, _, ?_, hsp, rfl, ?_⟩
+  refine ⟨⟨rest, fun j => (reduceElemId (zero.map some) (optOp add) none dg (some [-1]) false j).join⟩, _, ?_, hsp, rfl, ?_⟩
   · unfold trace
-    simp only [hdiag, Option.bind_some, reduce, removeDims_eq_spec dg.shape (some [-1]) false hv, hshape, Option.map_some]
+    simp only [hdiag, Option.bind_some, reduceId, removeDims_eq_spec dg.shape (some [-1]) false hv, hshape, Option.map_some]
   · intro j hj
     simp only at hj
     have hlenfree : ((List.range s.length).filter (fun i => decide (i ≠ ax1 ∧ i ≠ ax2))).length ≤ j.length := by
@@ -286,21 +282,44 @@ theorem trace_spec {α : Type} (add : α → α → α) (a : Arr α) (off axis1 
       rw [hc1, hc2]
       rw [diagonalFill_eq_placeIdx ax1 ax2 (i + (-off).toNat) (i + off.toNat) h12 (List.range s.length) j [i] hlenfree]
       exact readAt_ofNat a _ (by rw [hs]; exact hterm i hi')
-    refine ⟨?_, ?_, ?_⟩
-    · show (reduceElem (optOp add) none dg (some [-1]) false j).join = _
-      rw [reduceElem_eq_spec_posAxes (optOp add) none dg (some [-1]) false hv hR j (by rw [hshape]; exact hj)]
-      simp only [specReduceElem, hset]
+    refine ⟨?_, ?_⟩
+    · show (reduceElemId (zero.map some) (optOp add) none dg (some [-1]) false j).join = _
+      rw [reduceElemId_eq_spec (zero.map some) (optOp add) none dg (some [-1]) false hv j (by rw [hshape]; exact hj)]
+      simp only [specReduceElemId, hset]
       rw [show dg.shape = rest ++ [len] from rfl, addressed_last rest len j hj, List.map_map]
       rw [List.map_congr_left (g := fun i => some (a.get (placeIdx [ax1, ax2] [i + (-off).toNat, i + off.toNat] (List.range s.length) j)))
         (fun i hi => by simpa [Function.comp] using hread i hi)]
-      rw [foldFirst_optOp_some add (fun i => a.get (placeIdx [ax1, ax2] [i + (-off).toNat, i + off.toNat] (List.range s.length) j))]
+      rw [foldNumpy_optOp_join add zero (fun i => a.get (placeIdx [ax1, ax2] [i + (-off).toNat, i + off.toNat] (List.range s.length) j))]
       simp only [specTraceElem, List.map_map]
       rfl
-    · simp only [ne_eq, List.map_eq_nil_iff, List.range_eq_nil]
-      omega
     · intro idx hidx
       simp only [List.mem_map, List.mem_range] at hidx
       obtain ⟨i, hi, rfl⟩ := hidx
       exact hterm i hi
+
+/-- … with a non-empty diagonal the fold starts from the first diagonal element (no identity needed) -/
+theorem trace_spec {α : Type} (add : α → α → α) (zero : Option α) (a : Arr α) (off axis1 axis2 : Int) (n1 n2 : Nat)
+    (h1 : ValidAxis a.shape.length axis1) (h2 : ValidAxis a.shape.length axis2)
+    (h12 : normAxis a.shape.length axis1 ≠ normAxis a.shape.length axis2)
+    (hn1 : a.shape[normAxis a.shape.length axis1]? = some n1)
+    (hn2 : a.shape[normAxis a.shape.length axis2]? = some n2)
+    (hlo : (-off).toNat < n1) (hhi : off.toNat < n2) :
+    ∃ v sp, trace add zero a off axis1 axis2 = some v ∧
+      specTrace a.shape off (normAxis a.shape.length axis1) (normAxis a.shape.length axis2) = some sp ∧
+      v.shape = sp.shape ∧
+      ∀ j, InShape j sp.shape →
+        v.get j = foldFirst add none ((sp.get j).map a.get) ∧ sp.get j ≠ [] ∧ ∀ i ∈ sp.get j, InShape i a.shape := by
+  obtain ⟨v, sp, hv, hsp, hsh, hel⟩ := trace_spec_all add zero a off axis1 axis2 n1 n2 h1 h2 h12 hn1 hn2
+  refine ⟨v, sp, hv, hsp, hsh, ?_⟩
+  intro j hj
+  have hne : sp.get j ≠ [] := by
+    unfold specTrace at hsp
+    simp only [hn1, hn2, if_pos h12, Option.some.injEq] at hsp
+    rw [← hsp]
+    simp only [ne_eq, List.map_eq_nil_iff, List.range_eq_nil]
+    omega
+  obtain ⟨e1, e2⟩ := hel j hj
+  refine ⟨?_, hne, e2⟩
+  rw [e1, specTraceElem, foldNumpy_of_ne_nil _ _ _ (by simpa using hne)]
 
 end NmVerif.Reduce
